@@ -14,7 +14,7 @@ m['confirmed_by_coordinator']={'builds':'does-not-build' not in ev,'existing_tes
 det={'check':'./check %s (quick tier, VERIF_REPO=<patched copy>)'%CK}
 vl=[l for l in ev.splitlines() if l.startswith('VIOLATION')]
 if vl:
-    det['violation_line']=vl[0]
+    vl=[vl[-1]]; det['violation_line']=vl[0]
     rp=re.search(r'replay=(\S+)',vl[0]).group(1)
     try:
         r=json.load(open(rp))
